@@ -54,14 +54,14 @@ func (sc *scenario) node(i int) *node.Node { return sc.w.Nodes[i] }
 
 // per-profile favoured templates (70 % of the draws); every profile still draws from the full lists
 var favTx = map[string][]string{
-	"value":  {"valid", "fee-exact", "fee-low", "fee-plus1", "overflow", "many-outputs", "consolidate", "zero-output"},
+	"value":  {"valid", "yield-swap", "fee-exact", "fee-low", "fee-plus1", "overflow", "many-outputs", "consolidate", "zero-output"},
 	"spend":  {"valid", "double-spend", "same-input-twice", "spend-pooled", "spend-last-block", "duplicate", "bad-index", "unknown-ref"},
 	"owner":  {"valid", "bad-sig", "zero-sig", "wrong-owner", "foreign-sig", "unknown-ref"},
 	"shape":  {"valid", "ts-old", "ts-last", "ts-next", "ts-future"},
-	"income": {"valid", "yield-new", "yield-new", "yield-twice", "yield-registered"},
+	"income": {"valid", "yield-new", "yield-new", "yield-twice", "yield-registered", "yield-swap", "yield-swap"},
 	"alias":  {"valid", "yield-new", "yield-new", "yield-registered"},
-	"pool":   {"valid", "valid", "duplicate", "double-spend", "fee-low", "fee-exact", "ts-old", "ts-future", "ts-next", "ts-last", "same-input-twice"},
-	"agree":  {"valid", "valid", "fee-exact", "ts-last", "ts-next", "yield-new", "yield-registered", "consolidate", "zero-output", "spend-last-block", "spend-pooled"},
+	"pool":   {"valid", "valid", "yield-swap", "yield-swap", "duplicate", "double-spend", "fee-low", "fee-exact", "ts-old", "ts-future", "ts-next", "ts-last", "same-input-twice"},
+	"agree":  {"valid", "valid", "yield-swap", "yield-swap", "fee-exact", "ts-last", "ts-next", "yield-new", "yield-registered", "consolidate", "zero-output", "spend-last-block", "spend-pooled"},
 }
 var favBreak = map[string][]string{
 	"value":  {"reward-plus1", "low-fee", "ok-fee"},
@@ -120,7 +120,7 @@ func (sc *scenario) value(u *ledger.Utxo, at int64) uint64 {
 
 var txKinds = []string{"valid", "valid", "valid", "valid", "fee-exact", "fee-low", "fee-plus1", "double-spend", "duplicate", "bad-sig",
 	"zero-sig", "wrong-owner", "foreign-sig", "unknown-ref", "bad-index", "ts-old", "ts-last", "ts-next", "ts-future", "overflow",
-	"yield-new", "yield-twice", "yield-registered", "same-input-twice", "spend-pooled", "spend-last-block", "zero-output", "many-outputs", "consolidate"}
+	"yield-new", "yield-twice", "yield-registered", "yield-swap", "same-input-twice", "spend-pooled", "spend-last-block", "zero-output", "many-outputs", "consolidate"}
 
 func (sc *scenario) makeTx(n *node.Node, kind string) (*ledger.Transaction, string) {
 	r := sc.rng
@@ -302,6 +302,45 @@ func (sc *scenario) makeTx(n *node.Node, kind string) (*ledger.Transaction, stri
 		}
 		o[1].IsYielding = true // rest back to sender, yielding
 		return mk(spends, o, ts), kind
+	case "yield-swap":
+		// order-dependent pair: A releases an address's only yielding output, B (pooled later) gives that address a
+		// new yielding output: B is admissible only after A, so a shuffle that tries B first must drop it
+		for _, t := range n.Pool.Transactions() {
+			for _, in := range t.Inputs() {
+				for _, c := range conf {
+					if c.u.TransactionId() == in.TransactionId() && c.u.OutputIndex() == in.OutputIndex() && c.u.IsYielding() {
+						var rest []utxoRef
+						for _, u := range usable {
+							if !u.u.IsYielding() {
+								rest = append(rest, u)
+							}
+						}
+						if len(rest) == 0 {
+							return nil, ""
+						}
+						u := pick(r, rest)
+						v := sc.value(u.u, next)
+						if v <= S.MinFee+1 {
+							return nil, ""
+						}
+						return mk([]node.Spend{{TxId: u.u.TransactionId(), Index: u.u.OutputIndex(), By: u.owner}},
+							[]node.RawOutput{{Address: c.owner.Address, IsYielding: true, Value: (v - S.MinFee) / 2}, {Address: u.owner.Address, Value: v - S.MinFee - (v-S.MinFee)/2}}, ts), "yield-swap-B"
+					}
+				}
+			}
+		}
+		for _, u := range usable {
+			if u.u.IsYielding() {
+				v := sc.value(u.u, next)
+				if v <= S.MinFee+2 {
+					continue
+				}
+				// keep part of the value in a plain output of another wallet so that B has something to spend later
+				return mk([]node.Spend{{TxId: u.u.TransactionId(), Index: u.u.OutputIndex(), By: u.owner}},
+					[]node.RawOutput{{Address: other().Address, Value: (v - S.MinFee) / 2}, {Address: u.owner.Address, Value: v - S.MinFee - (v-S.MinFee)/2}}, ts), "yield-swap-A"
+			}
+		}
+		return nil, ""
 	case "same-input-twice":
 		pickSome(1)
 		spends = append(spends, spends[0])
@@ -646,6 +685,42 @@ func (sc *scenario) genNeighbours(n *node.Node, now int64) []trace.Neighbour {
 
 // ---------------------------------------------------------------- scenario body
 
+// conflictSwap: two nodes sharing a chain each receive one of two transactions spending the same output,
+// both produce, then one adopts the other's tip AFTER having admitted its own transaction, then produces.
+func (sc *scenario) conflictSwap(a, b *node.Node) {
+	w := sc.w
+	S := w.S
+	usable := sc.confirmed(a)
+	if len(usable) == 0 {
+		return
+	}
+	u := pick(sc.rng, usable)
+	last := a.Chain.LastBlockTimestamp()
+	v := sc.value(u.u, last+2*S.Interval)
+	if v <= S.MinFee+10 {
+		return
+	}
+	sp := []node.Spend{{TxId: u.u.TransactionId(), Index: u.u.OutputIndex(), By: u.owner}}
+	t1, _, err1 := node.MakeTx(sp, []node.RawOutput{{Address: pick(sc.rng, w.Wallets).Address, Value: v - S.MinFee - 1}}, last)
+	t2, _, err2 := node.MakeTx(sp, []node.RawOutput{{Address: pick(sc.rng, w.Wallets).Address, Value: v - S.MinFee - 2}}, last+S.Interval)
+	if err1 != nil || err2 != nil {
+		return
+	}
+	w.Submit(b, t1)
+	sc.clock = last + S.Interval
+	w.Tick(b, sc.clock)
+	w.Tick(a, sc.clock)
+	if v := w.Submit(a, t2); v.Info["submit"] == "admitted" {
+		sc.mark("admitted")
+	}
+	w.Sync(a, sc.clock, []trace.Neighbour{trace.Honest(b)})
+	sc.clock += S.Interval
+	if v := w.Tick(a, sc.clock); v.Info["tick"] == "produced" {
+		sc.mark("block-with-tx")
+	}
+	w.Sync(b, sc.clock, []trace.Neighbour{trace.Honest(a)})
+}
+
 func (sc *scenario) run(maxOps int) {
 	r := sc.rng
 	w := sc.w
@@ -653,11 +728,29 @@ func (sc *scenario) run(maxOps int) {
 	sc.clock = T0
 	// node 0 starts the chain
 	w.Tick(w.Nodes[0], sc.clock)
+	if len(w.Nodes) > 1 && r.Intn(2) == 0 {
+		// shared start: the others take node 0's chain
+		sc.clock += S.Interval
+		w.Tick(w.Nodes[0], sc.clock)
+		sc.clock += S.Interval
+		w.Tick(w.Nodes[0], sc.clock)
+		for _, f := range w.Nodes[1:] {
+			w.Tick(f, T0)
+			sc.catchUp(f, w.Nodes[0], sc.clock, 3)
+		}
+	}
 	for step := 0; step < maxOps && len(w.Failures) == 0; step++ {
 		n := pick(r, w.Nodes)
 		roll := r.Intn(100)
 		if sc.profile == "alias" && r.Intn(4) == 0 {
 			roll = 80 + r.Intn(8) // more registry refreshes
+		}
+		if len(w.Nodes) > 1 && r.Intn(12) == 0 {
+			o := pick(r, w.Nodes)
+			if o != n && len(n.AllBlocks()) > 1 && sameChain(n, o) {
+				sc.conflictSwap(n, o)
+				continue
+			}
 		}
 		switch {
 		case roll < 22: // advance the clock and produce on the leader (or this node)
@@ -701,6 +794,12 @@ func (sc *scenario) run(maxOps int) {
 			w.Hist["tx:"+k+"→"+v.Info["submit"]]++
 			if v.Info["submit"] == "admitted" {
 				sc.mark("admitted")
+				if k == "yield-swap-A" { // follow with the dependent transaction B straight away
+					if tb, kb := sc.makeTx(n, "yield-swap"); tb != nil && kb == "yield-swap-B" {
+						vb := w.Submit(n, tb)
+						w.Hist["tx:"+kb+"→"+vb.Info["submit"]]++
+					}
+				}
 			}
 		case roll < 80: // sync
 			if len(n.AllBlocks()) == 0 {
@@ -807,6 +906,12 @@ func (sc *scenario) runAgree(maxOps int) {
 				w.Hist["tx:"+kind+"→"+v.Info["submit"]]++
 				if v.Info["submit"] == "admitted" {
 					sc.mark("admitted")
+					if kind == "yield-swap-A" {
+						if tb, kb := sc.makeTx(a, "yield-swap"); tb != nil && kb == "yield-swap-B" {
+							vb := w.Submit(a, tb)
+							w.Hist["tx:"+kb+"→"+vb.Info["submit"]]++
+						}
+					}
 				}
 			}
 		}
